@@ -220,6 +220,29 @@ def run(prop, tier, replay):
         for b, ev in rej:
             rep.violation("tag-drift:io-latch-or-restart", {"runtime_cycle_event": ev, "why": b["why"]},
                           f"RuntimeCycle {b['kind']} event: a bound / restarted variable holds a value whose tag is not its declared type")
+    dw_rows = []
+    if prop == "C03" and not replay:
+        # debugger writes through the control endpoint (set / io.write / io.force carry their value as text)
+        dwf = work / "dbgwrite.ndjson"
+        tpv(["dbgwrite-run", "--out", dwf, "--work", work / "dbgwrite-fx"], timeout=1800)
+        dw_rows = read_ndjson(dwf)
+        if sum(1 for r in dw_rows if r["a"] == "DbgWrite" and r["accepted"]) < 20:
+            raise ToolError("debugger-write stage: fewer than 20 accepted writes")
+        for r in dw_rows:
+            if r["a"] == "DbgWrite":
+                why = []
+                if r["tagAfter"] != r["declared"]:
+                    why.append("tag")
+                if r["cycleErrors"]:
+                    why.append("cycle-fault")
+                if not r["accepted"] and r["before"] != r["after"]:
+                    why.append("refused-but-changed")
+                if why:
+                    rep.violation(f"dbgwrite:{'+'.join(why)}:{r['declared']}", {"dbgwrite": True, "event": r},
+                                  f"control request set {r['target']} := '{r['text']}' (declared {r['declared']}): stored {r['after']}, cycle errors {r['cycleErrors']}")
+            elif r["a"] == "DbgIo" and (r["cycleErrors"] or r["nextCycleErrors"]):
+                rep.violation(f"dbgwrite:io:cycle-fault:{r['address']}", {"dbgwrite": True, "event": r},
+                              f"control request {r['via']} {r['address']} := '{r['text']}': the next cycle fails with {r['cycleErrors'] or r['nextCycleErrors']}")
     ncyc = sum(1 for r in rows if r["a"] == "Cycle")
     outcomes = {}
     for r in rows:
@@ -230,7 +253,7 @@ def run(prop, tier, replay):
     cov = {
         "states": max(mc["distinct"], 1) + len(rows), "transitions": max(mc["generated"], 1) + len(rows),
         "traces_validated_against_impl": len(runs),
-        "programs_typed_core": len(runs), "cycles_validated": ncyc, "programs_wide_generator": len(wide_rows), "operator_matrix_cases_full_width": len(op_rows), "feature_programs_accepted": sum(1 for r in feat_rows if r["accepted"]), "feature_families": len({r["family"] for r in feat_rows if r["accepted"]}), "stdlib_functions_called": sum(1 for r in std_rows if r["okClasses"] > 0), "stdlib_calls": sum(r["calls"] for r in std_rows),
+        "programs_typed_core": len(runs), "cycles_validated": ncyc, "programs_wide_generator": len(wide_rows), "operator_matrix_cases_full_width": len(op_rows), "debugger_writes_through_control_endpoint": len(dw_rows), "feature_programs_accepted": sum(1 for r in feat_rows if r["accepted"]), "feature_families": len({r["family"] for r in feat_rows if r["accepted"]}), "stdlib_functions_called": sum(1 for r in std_rows if r["okClasses"] > 0), "stdlib_calls": sum(r["calls"] for r in std_rows),
         "profiles": {p: sum(1 for r in runs if scripts[r[0]["script"]]["profile"] == p) for p in ("matrix", "strict", "natural", "pous", "case")},
         "outcomes": outcomes,
         "runtime_cycle_runs_tag_checked": rc_runs, "runtime_cycle_events_tag_checked": rc_events,
